@@ -30,6 +30,7 @@ func (m *Mutex) Lock() {
 		m.mu.Lock()
 		return
 	}
+	zsimrt.SyncPoint()
 	for !m.mu.TryLock() {
 		zsimrt.YieldLock()
 	}
@@ -39,6 +40,7 @@ func (m *Mutex) Lock() {
 func (m *Mutex) Unlock() {
 	m.mu.Unlock()
 	zsimrt.LockEvent()
+	zsimrt.SyncPoint()
 }
 
 func (m *Mutex) TryLock() bool {
@@ -57,26 +59,28 @@ func (m *RWMutex) Lock() {
 		m.mu.Lock()
 		return
 	}
+	zsimrt.SyncPoint()
 	for !m.mu.TryLock() {
 		zsimrt.YieldLock()
 	}
 	zsimrt.LockEvent()
 }
 
-func (m *RWMutex) Unlock() { m.mu.Unlock(); zsimrt.LockEvent() }
+func (m *RWMutex) Unlock() { m.mu.Unlock(); zsimrt.LockEvent(); zsimrt.SyncPoint() }
 
 func (m *RWMutex) RLock() {
 	if !zsimrt.Active() {
 		m.mu.RLock()
 		return
 	}
+	zsimrt.SyncPoint()
 	for !m.mu.TryRLock() {
 		zsimrt.YieldLock()
 	}
 	zsimrt.LockEvent()
 }
 
-func (m *RWMutex) RUnlock() { m.mu.RUnlock(); zsimrt.LockEvent() }
+func (m *RWMutex) RUnlock() { m.mu.RUnlock(); zsimrt.LockEvent(); zsimrt.SyncPoint() }
 
 func (m *RWMutex) TryLock() bool {
 	ok := m.mu.TryLock()
